@@ -339,20 +339,20 @@ def g_fdte(rng, ok=True):
 
 def g_payload(rng, n=None):
     if n is None:
-        n = rng.choice(PAYLOADS) if rng.random() < 0.3 else rng.randrange(0, 1498 if rng.random() < 0.2 else 64)
+        n = rng.choice(PAYLOADS[:3]) if rng.random() < 0.3 else rng.randrange(0, 1498 if rng.random() < 0.06 else 64)
     return bytes(rng.randrange(256) for _ in range(n))
 
 
 def g_msg(rng, kind, ok=True, size=None):
     if kind == 'result': return ['result', g_short(rng, ok)]
     if kind in ('wbdt', 'rbdtack'):
-        n = rng.randrange(41) if size is None else size
+        n = rng.choice([rng.randrange(6), rng.randrange(41)]) if size is None else size
         return [kind, [g_bdte(rng, ok) for _ in range(n)]]
     if kind in ('rbdt', 'rfdt'): return [kind]
     if kind == 'fwd': return ['fwd', g_addr(rng, ok), g_payload(rng, size)]
     if kind == 'regfd': return ['regfd', g_short(rng, ok)]
     if kind == 'rfdtack':
-        n = rng.randrange(41) if size is None else size
+        n = rng.choice([rng.randrange(6), rng.randrange(41)]) if size is None else size
         return [kind, [g_fdte(rng, ok) for _ in range(n)]]
     if kind == 'delfdt': return ['delfdt', g_addr(rng, ok)]
     return [kind, g_payload(rng, size)]
@@ -399,11 +399,12 @@ def valid_specs(rng, tier):
     """messages inside the property's domain"""
     big = tier == 'thorough'
     out = []
-    for k in TABLE_KINDS:                         # every table size 0..40
+    for i, k in enumerate(TABLE_KINDS):           # every table size 0..40 (quick: each size for one class in turn)
         for n in range(41):
-            out.append(g_msg(rng, k, True, n))
+            if big or n % 3 == i or n in (0, 1, 2, 39, 40):
+                out.append(g_msg(rng, k, True, n))
     for k in NPDU_KINDS:
-        for n in PAYLOADS + [3, 4, 5, 6, 7, 1495]:
+        for n in PAYLOADS + [3, 4, 5, 6, 7] + ([1495] if big else []):
             out.append(g_msg(rng, k, True, n))
         for _ in range(40 if big else 10):
             out.append(g_msg(rng, k, True))
@@ -415,10 +416,9 @@ def valid_specs(rng, tier):
     for ip in itertools.product([0, 127, 128, 255], repeat=2):
         for port in PORTS_OK:
             a = ['ip', [ip[0], rng.choice(IPO), rng.choice(IPO), ip[1]], port]
-            out.append(['delfdt', a])
-            out.append(['fwd', a, g_payload(rng, rng.randrange(4))])
-            out.append(['wbdt', [[a, rng.choice(MASKS_OK)]]])
-            out.append(['rfdtack', [[a, rng.choice(SHORTS_OK), rng.choice(SHORTS_OK)]]])
+            four = [['delfdt', a], ['fwd', a, g_payload(rng, rng.randrange(4))], ['wbdt', [[a, rng.choice(MASKS_OK)]]],
+                    ['rfdtack', [[a, rng.choice(SHORTS_OK), rng.choice(SHORTS_OK)]]]]
+            out += four if big else [four[len(out) % 4], four[(len(out) + 1) % 4]]
     for mask in MASKS_OK:
         out.append(['rbdtack', [[g_addr(rng), mask]]])
     for n in range(33):
@@ -729,18 +729,13 @@ def direct(rng, tier, focus=()):
         short(bytes([a]))
         for b in range(256):
             short(bytes([a, b]))
-    firsts3 = range(256) if big else [0x81, 0x00, 0x80, 0x82, 0xFF]
+    firsts3 = range(256) if big else [0x81, 0x00, 0x01, 0x0A, 0x0B, 0x7F, 0x80, 0x82, 0x83, 0xC1, 0xFF, rng.randrange(256)]
     for a in firsts3:
         for b in range(256):
             for c in range(256):
                 short(bytes([a, b, c]))
-    if big:
-        his = range(256)
-    else:
-        his = [0, 1, 4, 255, rng.randrange(256)]
-    fns4 = range(256) if not big else range(256)
-    for f in fns4:
-        for hi in his:
+    for f in range(256):
+        for hi in (range(256) if (big or f < 12) else [0, 1, 4, 255, rng.randrange(256)]):
             for lo in (range(256) if (big or hi == 0 or f < 12) else [0, 4, rng.randrange(256)]):
                 short(bytes([0x81, f, hi, lo]))
     for t in range(256):
@@ -749,8 +744,9 @@ def direct(rng, tier, focus=()):
                 short(bytes([t, f, 0, 4]))
     stats['exhaustive'] = True
     stats['exhaustive_domain'] = ('all octet strings of length <= 2; length 3 with first octet %s; length 4 = 81 f hi lo with %s'
-                                  % ('any' if big else 'in {81,00,80,82,ff}',
-                                     'every f, hi, lo (16.7 M)' if big else 'every f, hi in {0,1,4,255,random}, every lo for hi=0 or f<12'))
+                                  % ('any' if big else 'in {81,00,01,0a,0b,7f,80,82,83,c1,ff,random}',
+                                     'every f, hi, lo (16.7 M)' if big else
+                                     'every hi, lo for f < 12; for f >= 12 every lo with hi = 0 and lo in {0,4,random} with hi in {1,4,255,random}'))
 
     # 5. mutated valid frames: anything accepted must be header-consistent; nothing but DecodingError may escape
     pool = [b for b in uniq if len(b) <= 200]
